@@ -3,8 +3,14 @@ from . import core, signals_common as S
 
 PROP = "C16"
 DRIVER = "drv_signals"
-LEAN_MODULES = ["MesaModel.Props.C16"]
-THEOREMS = []
+LEAN_MODULES = ["MesaModel.Props.C16", "MesaModel.Props.C18Signals"]
+THEOREMS = ["Mesa.Signals." + t for t in (
+    "C16_observe_pointwise", "C16_unobserve_pointwise", "C16_unobserve_removes", "C16_clear_removes",
+    "C16_registry_is_subscription_history", "C16_delivery_exactly_once_in_order", "C16_dead_never_called",
+    "C16_unsubscribed_never_called", "C16_unknown_rejected", "C16_assign_payload", "C16_signals_track_list",
+    "C16_replica_all_histories", "C16_listener_receives_all", "C16_pi_independent",
+    "C18_signals_reject_unchanged", "C18_signals_observe_reject_unchanged", "C18_signals_observe_rejects_exactly",
+    "C18_signals_rejected_calls_can_be_deleted")]
 COUNTS = {"quick": 1500, "thorough": 40000}
 TRUSTED = [
     "CPython weakref: a handler dies exactly when the harness drops its last strong reference (refcounting)",
